@@ -180,6 +180,7 @@ type pipeEnd struct {
 	left   []byte
 	closed bool
 	seg    int
+	log    []byte // everything written at this end
 }
 
 func newPipe(seg int) (*pipeEnd, *pipeEnd) {
@@ -205,6 +206,7 @@ func (p *pipeEnd) Write(b []byte) (int, error) {
 	if p.closed {
 		return 0, io.ErrClosedPipe
 	}
+	p.log = append(p.log, b...)
 	// segmentation of the stream: chunks of at most seg bytes (0 = as written)
 	for off := 0; off < len(b); {
 		n := len(b) - off
@@ -239,6 +241,12 @@ type exchangeResult struct {
 func H_c01_two_party() {
 	NA := symParam("NA", 2)
 	NB := symParam("NB", 1)
+	gz := symParam("GZIP", 0)
+	if gz&1 != 0 {
+		// GZIP_EXPERIMENT=1: both stations run in one process, so "on at one
+		// side only" is represented by the SID the peer sees (GZIP=3)
+		symSetenv("GZIP_EXPERIMENT", "1")
+	}
 	na := symInt(symParam("NAMIN", 0), NA)
 	nb := symInt(0, NB)
 	all := c01Msgs(na + nb)
@@ -281,6 +289,9 @@ func H_c01_two_party() {
 	rb := <-done
 	symAssert(errA == nil && rb.err == nil, "both-exchanges-return-nil")
 	symAssert(ca.closed && cb.closed, "connection-closed")
+	if gz&1 != 0 && (bytes.Contains(ca.log, []byte("FD EM ")) || bytes.Contains(cb.log, []byte("FD EM "))) {
+		symReach("gzip-proposal")
+	}
 	check := func(sent []*Message, hs, hr *recHandler, stS, stR TrafficStats) {
 		k := 0
 		for _, m := range sent {
